@@ -122,6 +122,94 @@ def run(R, P="C09"):
                         "%s passes only %s on to %s: the caller's %s arguments are dropped" % (f.qualname, "*" + va if star else "**" + kw, q.src(c.func)[:40],
                                                                                            "keyword" if star else "positional"))
 
+    # ---- FACTORY: asynq(...) / async_proxy(...) pick the decorator class by (pure, sync_fn) and hand every option to the constructor
+    # parameter of the same (public) name
+    alias = {"cls": "task_cls"}
+    want_guard = {
+        "decorators.asynq.decorate": {"PureAsyncDecorator": [("pure", True)], "AsyncDecorator": [("pure", False), ("sync_fn", None)],
+                                      "AsyncAndSyncPairDecorator": [("pure", False), ("sync_fn", "given")]},
+        "decorators.async_proxy.decorate": {"AsyncProxyDecorator": [("pure", False), ("sync_fn", None)],
+                                            "AsyncAndSyncPairProxyDecorator": [("pure", False), ("sync_fn", "given")], "<fn>": [("pure", True)]},
+    }
+    for fq, table in want_guard.items():
+        fac = repo.fn(fq)
+        outer_params = set(q.param_names(fac.parent.node)) | set([fac.parent.node.args.kwarg.arg] if fac.parent.node.args.kwarg else [])
+        fcfg = cfg_of(fac)
+        seen_cls = set()
+        for n in fcfg.nodes:
+            if n.kind != "stmt":
+                continue
+            tgt = None
+            for c in kit.node_calls(n):
+                if (q.call_name(c) or "").endswith("decorate") and c.args and isinstance(c.args[0], ast.Name) and c.args[0].id in table:
+                    tgt = c.args[0].id
+                    cls_ = repo.cls("decorators." + tgt)
+                    init = cls_.find_method("__init__")
+                    ps = q.param_names(init.node)[2:]
+                    for i, a in enumerate(c.args[1:]):
+                        if isinstance(a, ast.Name) and a.id in outer_params:
+                            R.check(i < len(ps) and ps[i] in (a.id, alias.get(a.id, a.id)), P + ".FACTORY", "%s:%s:%s" % (fq, tgt, a.id), R.site(fac, c),
+                                    "%s= reaches %s.__init__'s parameter %s" % (a.id, tgt, alias.get(a.id, a.id)),
+                                    "the option %s= is handed to %s.__init__ as its parameter `%s`" % (a.id, tgt, ps[i] if i < len(ps) else "<none>"))
+                    for k_ in c.keywords:
+                        if k_.arg is not None and isinstance(k_.value, ast.Name) and k_.value.id in outer_params:
+                            R.check(k_.arg in (k_.value.id, alias.get(k_.value.id, k_.value.id)), P + ".FACTORY", "%s:%s:%s" % (fq, tgt, k_.value.id), R.site(fac, c),
+                                    "%s= reaches the parameter of the same name" % k_.value.id, "the option %s= is passed as %s=" % (k_.value.id, k_.arg))
+            if tgt is None and isinstance(n.ast, ast.Return) and isinstance(n.ast.value, ast.Name) and n.ast.value.id == q.param_names(fac.node)[0] and "<fn>" in table:
+                tgt = "<fn>"
+            if tgt is None:
+                continue
+            seen_cls.add(tgt)
+            for var, want in table[tgt]:
+                def g(nd, var=var, want=want):
+                    if nd.kind != "test":
+                        return None
+                    k, s, pos = q.atom_test(nd.ast)
+                    if var == "pure" and k == "truth" and s == "pure":
+                        return ("T" if pos else "F") if want else ("F" if pos else "T")
+                    if var == "sync_fn" and k == "isnone" and s == "sync_fn":
+                        return ("T" if pos else "F") if want is None else ("F" if pos else "T")
+                    return None
+                p = kit.path_avoiding_guard(fcfg, [n], g, N)
+                R.check(p is None, P + ".FACTORY", "%s:%s:when-%s" % (fq, tgt, var), R.site(fac, n.ast),
+                        "%s is chosen only when %s is %s" % (tgt, var, want), "%s can be chosen although %s is not %s: the function gets the calling conventions of another decorator kind" % (tgt, var, want),
+                        fcfg.fmt_path(p) if p else None)
+        R.check(seen_cls == set(table), P + ".FACTORY", fq + ":kinds", R.site(fac), "the factory can build %s" % sorted(table), "the factory builds %s, not %s" % (sorted(seen_cls), sorted(table)))
+    # constructors: every option is kept under its own name or handed to the base constructor's parameter of that name
+    same = lambda a, b: a == b or alias.get(a, a) == b or alias.get(b, b) == a
+    for cq in DECORATOR_CLASSES:
+        cls_ = repo.cls(cq)
+        init = cls_.methods.get("__init__")
+        if init is None:
+            continue
+        ps = q.param_names(init.node)[1:]
+        loads = set(x.id for x in q.scope_nodes(init.node) if isinstance(x, ast.Name) and isinstance(x.ctx, ast.Load))
+        for p_ in ps:
+            R.check(p_ in loads, P + ".FACTORY", "%s:uses:%s" % (init.qualname, p_), R.site(init), "%s.__init__ uses its parameter %s" % (cls_.name, p_),
+                    "%s.__init__ ignores its parameter %s: the option given to the decorator is dropped" % (cls_.name, p_))
+        for st in q.scope_nodes(init.node):
+            if isinstance(st, ast.Assign) and isinstance(st.value, ast.Name) and st.value.id in ps:
+                for t in st.targets:
+                    if isinstance(t, ast.Attribute) and q.src(t.value) == "self" and t.attr in ps + [alias.get(x, x) for x in ps] and not same(t.attr, st.value.id):
+                        R.violation(P + ".FACTORY", "%s:store:%s" % (init.qualname, t.attr), R.site(init, st),
+                                    "%s.__init__ stores its parameter %s in the field %s, which belongs to another option" % (cls_.name, st.value.id, t.attr))
+        for c in q.calls(init.node):
+            if not (isinstance(c.func, ast.Attribute) and c.func.attr == "__init__"):
+                continue
+            tg = [t for cc, tgs, kind in R.res.callees(init) if cc is c for t in tgs]
+            explicit_self = bool(c.args) and q.src(c.args[0]) == "self"
+            for t in tg[:1]:
+                bps = q.param_names(t.node)[1:]
+                args_ = c.args[1:] if explicit_self else c.args
+                for i, a in enumerate(args_):
+                    if isinstance(a, ast.Name) and a.id in ps and i < len(bps):
+                        R.check(same(bps[i], a.id) or bps[i] not in ps + [alias.get(x, x) for x in ps], P + ".FACTORY", "%s:base:%s" % (init.qualname, a.id), R.site(init, c),
+                                "%s is handed to the base constructor's parameter %s" % (a.id, bps[i]),
+                                "%s.__init__ hands %s to the base constructor's parameter `%s`" % (cls_.name, a.id, bps[i]))
+                for k_ in c.keywords:
+                    if k_.arg is not None and isinstance(k_.value, ast.Name) and k_.value.id in ps:
+                        R.check(same(k_.arg, k_.value.id), P + ".FACTORY", "%s:base:%s" % (init.qualname, k_.value.id), R.site(init, c),
+                                "%s is handed to the base constructor as %s=" % (k_.value.id, k_.arg), "%s.__init__ hands %s to the base constructor as %s=" % (cls_.name, k_.value.id, k_.arg))
     # ---- ROUTE: sync = .value() of async
     def ret_srcs(m):
         return [q.src(n.value) for n in ast.walk(m.node) if isinstance(n, ast.Return) and n.value is not None and not q.is_none(n.value)]
@@ -339,6 +427,37 @@ def run(R, P="C09"):
         f = repo.fn(fq)
         rs = [q.src(n.value) for n in q.scope_nodes(f.node) if isinstance(n, ast.Return) and n.value is not None]
         R.check(rs == want, P + ".CLASSIFY", fq + ":returns", R.site(f), "%s returns %s" % (f.name, want), "%s returns %s" % (f.name, rs))
+    # a marker attribute is read only where its presence was established
+    def has_marker(attr):
+        def g(nd):
+            if nd.kind != "test":
+                return None
+            e, pos = nd.ast, True
+            while isinstance(e, ast.UnaryOp) and isinstance(e.op, ast.Not):
+                e, pos = e.operand, not pos
+            if isinstance(e, ast.Call) and q.call_name(e) == "hasattr" and len(e.args) == 2 and isinstance(e.args[1], ast.Constant) and e.args[1].value == attr:
+                return "T" if pos else "F"
+            return None
+        return g
+    for fq in ("decorators.get_async_fn", "decorators.get_async_or_sync_fn", "decorators.async_call", "decorators.asyncio_call"):
+        f = repo.fn(fq)
+        fcfg = cfg_of(f)
+        p0 = q.param_names(f.node)[0]
+        for n in fcfg.nodes:
+            if n.kind != "stmt":
+                continue
+            for x in ast.walk(n.ast):
+                attr = None
+                if isinstance(x, ast.Attribute) and q.src(x.value) == p0 and x.attr == "asynq":
+                    attr = "asynq"
+                elif isinstance(x, ast.Call) and q.call_name(x) == "getattr" and len(x.args) == 2 and q.src(x.args[0]) == p0 and isinstance(x.args[1], ast.Constant) and x.args[1].value == "async":
+                    attr = "async"
+                if attr is None:
+                    continue
+                p = kit.path_avoiding_guard(fcfg, [n], has_marker(attr), N)
+                R.check(p is None, P + ".CLASSIFY", "%s:reads:%s" % (fq, attr), R.site(f, n.ast), "%s.%s is read only after hasattr(%s, %r)" % (p0, attr, p0, attr),
+                        "%s.%s is read on a path where hasattr(%s, %r) was not established (plain callables raise AttributeError)" % (p0, attr, p0, attr),
+                        fcfg.fmt_path(p) if p else None)
     # ---- DEDUP-KEY (function identity, thread per call)
     from .c12 import dedup_key_rule
     dedup_key_rule(R, P + ".DEDUP-KEY")
